@@ -113,6 +113,8 @@ class Parser:
 
     def next(self):
         tok = self.peek()
+        if tok[0] == 'eof':
+            raise TranslateError('unexpected end of the function text')
         self.i += 1
         return tok
 
@@ -167,7 +169,12 @@ class Parser:
             depth = 1
             while depth:
                 x = self.next()[1]
-                depth += (x == '<') - (x == '>')
+                if x == '>>' and depth == 1:
+                    # `Option<Uint<B, L>>`: the second `>` closes the enclosing type
+                    self.i -= 1
+                    self.t[self.i] = ('op', '>')
+                    break
+                depth += (x == '<') - (x == '>') - 2 * (x == '>>')
             return 'uint'
         if kind == 'id' and v not in ('Result', 'Option', 'Wrapping', 'Uint') and self.peek()[1] == '<':
             self.next()
@@ -1372,6 +1379,15 @@ class Emitter:
             return self.target_roots(t[1])
         return [None]
 
+    def panic_value(self, result, env):
+        """what a panic evaluates to here: `none` at function level; inside a loop body the loop stops with the function's
+        result slot set to `none`"""
+        if isinstance(result, tuple) and result[0] == 'loop':
+            if not result[3]:
+                raise TranslateError('panic site in a loop without a result slot')
+            return self.finish(result, env, ('ret', 'none'))[0]
+        return 'none'
+
     def panicking(self, e):
         """is `e` (at its root) a call that can panic: `expect` / `unwrap`, or a translated function recorded as panicking"""
         if not (isinstance(e, tuple) and e):
@@ -1531,6 +1547,15 @@ class Emitter:
             return any(self.fn_return_in(x) for x in node)
         return False
 
+    def panic_site_in(self, node):
+        if isinstance(node, tuple):
+            if node and (node[0] == 'assert' or self.panicking(node) or node[0] == 'try'):
+                return True
+            return any(self.panic_site_in(x) for x in node)
+        if isinstance(node, list):
+            return any(self.panic_site_in(x) for x in node)
+        return False
+
     def mut_call(self, s):
         """a statement `let x = f(&mut a, …);` / `x = f(&mut a, …);` / `f(&mut a, …);` whose callee is an extern declared
         with updated arguments: -> (call node, [assignment targets of the `&mut` arguments], returns unit?)"""
@@ -1600,7 +1625,7 @@ class Emitter:
         S = [n for n in self.assigned(body[1], set()) if n in env]
         if not S:
             raise TranslateError('loop without state')
-        has_ret = self.fn_return_in(body)
+        has_ret = self.fn_return_in(body) or (getattr(self, 'panics', False) and self.panic_site_in(body))
         if has_ret and result not in (None, 'fn'):
             raise TranslateError('return inside a nested loop is not supported')
         used = self.names_in([cond, body], set())
@@ -1805,11 +1830,12 @@ class Emitter:
                 if pre:
                     return self.stmts(pre + [s[:pos] + (ne,) + s[pos + 1:]] + rest, env, exp, result)
         if k == 'assert':
-            if not getattr(self, 'panics', False) or (isinstance(result, tuple) and result[0] == 'loop'):
-                raise TranslateError('assert! inside a loop')
+            if not getattr(self, 'panics', False):
+                raise TranslateError('assert! in a function not recorded as panicking')
             sc, _ = self.expr(s[1], env, 'bool')
+            pv_ = self.panic_value(result, env)
             body, tb = self.stmts(rest, env, exp, result)
-            return 'if %s then (\n  %s)\n  else none' % (sc, body), tb
+            return 'if %s then (\n  %s)\n  else %s' % (sc, body, pv_), tb
         if k == 'let' and s[1][0] == 'pid' and s[3][0] == 'try':
             # `let x = opt?;` in a function returning `Option`: `None` is returned
             so, to = self.expr(s[3][1], env, None)
@@ -1821,22 +1847,22 @@ class Emitter:
         if k == 'let' and s[1][0] == 'pid' and self.panicking(s[3]) and not (s[3][0] == 'mcall' and s[3][2] in ('expect', 'unwrap')) \
                 and self.mut_call(s) is None:
             # `let x = f(…);` where `f` can panic
-            if isinstance(result, tuple) and result[0] == 'loop':
-                raise TranslateError('call of a panicking function inside a loop')
             so, to = self.expr(s[3], env, None)
+            pv_ = self.panic_value(result, env)
             env[s[1][1]] = to[1] if isinstance(to, tuple) and to[0] == 'option' else to
             body, tb = self.stmts(rest, env, exp, result)
-            return 'match %s with\n  | none => none\n  | some %s => (\n  %s)' % (so, lean_ident(s[1][1]), body), tb
+            return 'match %s with\n  | none => %s\n  | some %s => (\n  %s)' % (so, pv_, lean_ident(s[1][1]), body), tb
         if k == 'let' and s[1][0] == 'pid' and s[3][0] == 'mcall' and s[3][2] in ('expect', 'unwrap'):
             # `let x = opt.expect("…");`: `None` panics
-            if not self.panics or (isinstance(result, tuple) and result[0] == 'loop'):
-                raise TranslateError('panic site inside a loop')
+            if not self.panics:
+                raise TranslateError('panic site in a function not recorded as panicking')
             so, to = self.expr(s[3][1], env, None)
             if not (isinstance(to, tuple) and to[0] == 'option'):
                 raise TranslateError('expect / unwrap of a non-Option')
+            pv_ = self.panic_value(result, env)
             env[s[1][1]] = to[1] or 'usize'
             body, tb = self.stmts(rest, env, exp, result)
-            return 'match %s with\n  | none => none\n  | some %s => (\n  %s)' % (so, lean_ident(s[1][1]), body), tb
+            return 'match %s with\n  | none => %s\n  | some %s => (\n  %s)' % (so, pv_, lean_ident(s[1][1]), body), tb
         if k in ('expr', 'expr_nosemi', 'tail') and s[1][0] == 'ifsome':
             _, var, scrut, a, b = s[1]
             if b is None or not self.ends_with_return(b) or self.has_return(a):
@@ -1864,8 +1890,9 @@ class Emitter:
             csig = self.fns.get(call[1][-1], ()) if call[0] == 'call' else ()
             callee_panics = len(csig) > 7 and csig[7]
             if callee_panics:
-                if not self.panics or (isinstance(result, tuple) and result[0] == 'loop'):
-                    raise TranslateError('call of a panicking function inside a loop')
+                if not self.panics:
+                    raise TranslateError('call of a panicking function in a function not recorded as panicking')
+                pv_ = self.panic_value(result, env)
                 tc = tc[1] if isinstance(tc, tuple) and tc[0] == 'option' else tc
             lines = '' if callee_panics else 'let %s := %s\n  ' % (t, sc)
             n = len(targets) + (0 if unit else 1)
@@ -1883,7 +1910,7 @@ class Emitter:
                     lines += self.assign_lines(s[1], t + proj, rt, env)
             body, tb = self.stmts(rest, env, exp, result)
             if callee_panics:
-                return 'match %s with\n  | none => none\n  | some %s => (\n  %s%s)' % (sc, t, lines, body), tb
+                return 'match %s with\n  | none => %s\n  | some %s => (\n  %s%s)' % (sc, pv_, t, lines, body), tb
             return lines + body, tb
         if k == 'let' and s[3] == ('uninit',):
             # declared here, assigned in every branch of the `if` that follows (see `desugar`); its type is that of the value
